@@ -4,8 +4,12 @@ CONSTANTS Configs = {}
   SkipEpochWithoutRow = FALSE
   LoadEveryEngine = FALSE
   LoadOnlyOwnTargets = FALSE
+  CrashOnDuplicate = FALSE
+  KeepDuplicates = FALSE
+  CreateMissingTables = FALSE
 INVARIANT Accept
 INVARIANT ImportFaithful
 INVARIANT NoStaleState
 INVARIANT ObsReachFilter
+INVARIANT RunContinues
 PROPERTY ImporterReadOnly
